@@ -95,6 +95,23 @@ def run(ctx):
         sc = ",".join(str(rng.choice([1, 7, 100, 16384])) for _ in range(rng.randrange(0, 8))) or "-"
         cops.append(op(backing, 10, 1, 1, sc, 0, 0, blob))
         want_ops.append(op("pipe", 10, 1, 1, "-", 0, 0, plain).replace("reader.lines", "reader.spec.lines"))
+    # every order of two and three members of different formats, and EMPTY members (one, two, three in a row) between records
+    enc_ = {"gz": gzip.compress, "bz2": bz2.compress, "xz": lzma.compress}
+    seqs_ = [(a_, b_) for a_ in enc_ for b_ in enc_] + [("gz", "xz", "bz2"), ("xz", "xz", "gz"), ("bz2", "xz", "gz"), ("xz", "gz", "xz")]
+    for fm in seqs_:
+        parts = [b"member %d line a\nline b\r\n\n" % i * 40 for i in range(len(fm))]
+        blob = b"".join(enc_[f_](m_) for f_, m_ in zip(fm, parts))
+        for backing in ("pipe", "file"):
+            cops.append(op(backing, 10, 1, 1, "-", 0, 0, blob))
+            want_ops.append(op("pipe", 10, 1, 1, "-", 0, 0, b"".join(parts)).replace("reader.lines", "reader.spec.lines"))
+    for f_ in enc_:
+        for nempty in (1, 2, 3):
+            for where in ("middle", "front", "end"):
+                pieces = [b"first record\n", b"second record\nthird\n"]
+                e_ = [enc_[f_](b"")] * nempty
+                ms = {"middle": [enc_[f_](pieces[0])] + e_ + [enc_[f_](pieces[1])], "front": e_ + [enc_[f_](x) for x in pieces], "end": [enc_[f_](x) for x in pieces] + e_}[where]
+                cops.append(op("pipe", 10, 1, 1, "-", 0, 0, b"".join(ms)))
+                want_ops.append(op("pipe", 10, 1, 1, "-", 0, 0, b"".join(pieces)).replace("reader.lines", "reader.spec.lines"))
     for k in (1, 2):
         for delta in (-1, 0, 1):
             first = pvlib.gz_exact(6 + 16384 * k + delta, bytes(rng.choice(b"abc\n\r ") for _ in range(6 + 16384 * k + delta)))
